@@ -372,6 +372,13 @@ def apply_edits(fn_name, sig2, body2, rewrites, inserts, notes):
             body2 = rx.sub(lambda _m: new, body2)
             notes.append("R6: identifier rewrite in %s: `%s` => `%s`" % (fn_name, word, new))
             continue
+        if old.startswith("\x00q:"):
+            # optional shape rewrite: applies where the shape occurs; if it does not occur the text goes to the verifier as it is
+            rx = re.compile(old[3:], re.S)
+            if rx.search(body2):
+                body2 = rx.sub(new, body2)
+                notes.append("R6: shape rewrite in %s: /%s/ => `%s`" % (fn_name, old[3:], new))
+            continue
         if old.startswith("\x00r:"):
             rx = re.compile(old[3:], re.S)
             if not rx.search(body2):
@@ -629,6 +636,24 @@ def extract_fragment(repo, file, name, impl, frm, to, nth=0):
         frag, _m = rewrite_asserts(frag)
         frag, _k = rewrite_error_payloads(frag)
         return frag, src[start:end]
+    if frm.startswith("@after_block:"):
+        # start right behind the block statement (loop, if) whose header line contains the literal: the fragment then does
+        # not depend on the text of its own first statement (an edit that removes that statement reaches the verifier)
+        lit = frm[len("@after_block:"):]
+        if body.count(lit) != 1 or body.count(to) < 1:
+            raise LostAnchor("%s::%s: fragment anchors not found exactly (%d, %d)" % (impl, name, body.count(lit), body.count(to)))
+        eol = body.find("\n", body.index(lit))
+        k = body.rfind("{", body.index(lit), eol)
+        if k < 0:
+            raise LostAnchor("%s::%s: `%s` does not open a block" % (impl, name, lit))
+        e = match_brace(body, k)
+        a = body.find("\n", e) + 1
+        b = body.rfind("\n", 0, body.index(to, a)) + 1
+        frag = body[a:b]
+        frag, _n = drop_log_statements(frag)
+        frag, _m = rewrite_asserts(frag)
+        frag, _k = rewrite_error_payloads(frag)
+        return frag, src[start:end]
     if body.count(frm) != 1 or body.count(to) < 1:
         raise LostAnchor("%s::%s: fragment anchors not found exactly (%d, %d)" % (impl, name, body.count(frm), body.count(to)))
     a = body.rfind("\n", 0, body.index(frm)) + 1
@@ -693,6 +718,11 @@ def _parse_fn_block(block):
             # an edit inside them reaches the verifier instead of losing the anchor
             flush()
             rewrites.append(("\x00r:" + m.group(1), m.group(2)))
+            continue
+        m = re.match(r'rewrite_re_opt "(.*)" => "(.*)"$', st)
+        if m:
+            flush()
+            rewrites.append(("\x00q:" + m.group(1), m.group(2)))
             continue
         m = re.match(r'rewrite_opt "(.*)" => "(.*)"$', st)
         if m:
